@@ -159,3 +159,11 @@ func VerifC10_q_resyncVsMove() {
 		w.checkAll("C10", "binding the next incarnation on the first node")
 	}
 }
+
+// BOUND: cloud provider configured; topologies {0,1}; two pods whose names (and therefore keys) are in a prefix relation: statefulset pods ss-1 and ss-10 (replicas 11), or bare pods bare-1 and bare-10; symbolic policy; both bound; the shorter-named one ends (finished and/or deleted), its event is handled and / or a resync pass runs; then two more pods are scheduled. The longer-named live pod keeps its IP and no IP is held by two live pods
+// ASSUME: C10: same scenario as VerifC01_q_prefixSiblings with the recording provider, checked under C10
+func VerifC10_q_prefixSiblings() { vpPrefixSiblings("C10") }
+
+// BOUND: cloud provider configured; topology 0; a statefulset pod (symbolic policy) bound, then gone (deleted; its event handled or still pending) so that its IP is reserved or still recorded for the key; an administrator's API release of that IP runs while, as a second logical thread starting inside any one window right before/after an API-server or IPAM call of the release (symbolic window 0..12), the same-named pod is re-created with a new UID, filtered and bound; the second thread waits (parks) wherever it needs a pod/pool key lock the release holds; afterwards another pod is scheduled. No two live pods may hold one IP and every live bound pod must own its IP
+// ASSUME: C10: same scenario as VerifC01_q_releaseVsRebind with the recording provider, checked under C10
+func VerifC10_q_releaseVsRebind() { vpReleaseVsRebind("C10") }
